@@ -14,6 +14,7 @@ mod p01;
 mod p02;
 mod p03;
 mod p05;
+mod p07;
 mod p09;
 mod items;
 mod p11;
@@ -41,6 +42,10 @@ macro_rules! families {
             }
             "C05" => {
                 type $f = p05::C05;
+                $body
+            }
+            "C07" => {
+                type $f = p07::C07;
                 $body
             }
             "C09" => {
